@@ -10,5 +10,6 @@ broadcast use {axiom_string_ext, axiom_str_ext, axiom_str_of, axiom_vec_ext, axi
 //@include spec/quant_lemmas.rs
 //@include spec/fol_spec.rs
 //@include spec/core_lemmas.rs
+//@include spec/fvlink_lemmas.rs
 } // verus!
 fn main() {}
